@@ -18,11 +18,10 @@ Next == /\ depth < Depth
         /\ depth' = depth + 1 /\ ty' = ty
 Spec == Init /\ [][Next]_<< ty, M, depth >>
 
-\* "no operation reads or writes outside the storage it owns" (also for the operations applied last)
-Inv_MemorySafe == MemorySafe(M) /\ \A op \in Alphabet : Enabled(ty, Abs(M), op) => MemorySafe(Do(ty, M, op).m)
+\* "no operation reads or writes outside the storage it owns" (the flag oob is sticky)
+Inv_MemorySafe == MemorySafe(M)
 \* the pointer-level model implements the index-range-map semantics
-\* (without the look-ahead: used by the demonstration configuration, so that the trace shows the whole history)
-Inv_MemorySafeNow == MemorySafe(M)
-Inv_Refines == \A op \in Alphabet : Enabled(ty, Abs(M), op) => Refines(ty, M, op)
+Inv_NoOob == ~M.oob
+Inv_Refines == depth < Depth => \A op \in Alphabet : Enabled(ty, Abs(M), op) => Refines(ty, M, op)
 Inv_AbsOK == StateOK(Abs(M)) /\ EmptyNormalised(M)
 =============================================================================
